@@ -320,7 +320,8 @@ def rule_A_PUBFAIL(ctx, repo, cache):
                             break       # the handler retried the encoding successfully (byname fallback): recovered
                         if x.kind == 'RENAME' and on_self_store(x.args[1]):
                             bad = (o, e, x, 'publishes the half-written staging copy over the live object')
-                        elif x.kind in ('UNLINK', 'RMTREE') and x.args and on_self_store(x.args[0]) and not same_path(x.args[0], staging_of(evs)):
+                        elif x.kind in ('UNLINK', 'RMTREE') and x.args and on_self_store(x.args[0]) and not same_path(x.args[0], staging_of(evs)) \
+                                and not created_here(evs, x.args[0]):
                             bad = (o, e, x, 'removes the live object')
                     break
         # ... and when the publishing rename itself fails (the target exists again: another writer stored the key in between), nothing is removed but the
@@ -332,7 +333,7 @@ def rule_A_PUBFAIL(ctx, repo, cache):
                     if e.kind == 'RENAME!' and len(e.args) > 1 and on_self_store(e.args[1]):
                         for x in evs[i + 1:]:
                             if x.kind in ('UNLINK', 'RMTREE') and x.args and on_self_store(x.args[0]) and not same_path(x.args[0], staging_of(evs)) \
-                                    and not same_path(x.args[0], e.args[0]):
+                                    and not same_path(x.args[0], e.args[0]) and not created_here(evs, x.args[0]):
                                 bad = (o, e, x, 'removes the live object (which, the rename having failed, is what another writer has just stored)')
                         break
         ctx.ob('A-PUBFAIL', '%s.%s (%d encode-failure paths)' % (lab, routine, n), bad is None)
@@ -344,6 +345,11 @@ def rule_A_PUBFAIL(ctx, repo, cache):
                          x.kind, wh(ci, x.line)), wh(ci, x.line), render_path(o))
         if n == 0:
             raise AnalysisError('%s.%s: no encode-failure edge found (may-raise table out of date?)' % (lab, routine))
+
+
+def created_here(evs, p):
+    """the path was created by this very call (a lock directory made with os.mkdir and removed again, a scratch file): removing it removes nothing stored"""
+    return any(e.kind in ('MKDIR', 'OPENW') and e.args and same_path(e.args[0], p) for e in evs)
 
 
 def staging_of(evs):
@@ -1561,8 +1567,18 @@ def rule_A_VIS_STAGE(ctx, repo, cache, props_note=''):
         # A-STAGE (fresh name): the staging directory is private to one attempt: its name has a random / per-process / per-time component.  A name derived
         # from the key alone is shared with an interrupted or failed earlier attempt (and with a concurrent writer of the same key): pox.mkdir refuses the
         # existing directory, _store swallows that OSError, skips writing and publishes the other attempt's leftover
+        # (directories the store creates but never fills or publishes - a per-key lock directory - are not staging copies: for them only A-VIS applies)
+        staged_lines = set()
+        for o_ in outs:
+            evs_ = o_.st.events
+            for i_, e_ in enumerate(evs_):
+                if e_.kind == 'MKDIR' and on_self_store(e_.args[0]):
+                    later_ = evs_[i_ + 1:]
+                    if any((x.kind == 'RENAME' and same_path(x.args[0], e_.args[0])) or
+                           (x.kind in ('OPENW', 'WRITE') and x.args and contains_term(x.args[0], lambda t, p0=e_.args[0]: t == p0)) for x in later_):
+                        staged_lines.add(e_.line)
         stale = None
-        for o, p_, e_ in sites:
+        for o, p_, e_ in [s_ for s_ in sites if s_[2].kind != 'MKDIR' or s_[2].line in staged_lines or not staged_lines]:
             # ... drawn from a source that differs between processes forked from one parent: the global `random` functions are re-seeded in a forked child, a
             # private Random() instance created at import time is duplicated with its state (two workers then draw the same names)
             fresh = contains_term(p_, lambda t: t[0] == 'call' and t[1][0] == 'lib' and (
